@@ -462,3 +462,58 @@ pub fn lazy_vs_eager_small_p8() {
         cover!(p[0] == 0.0, "leading zero entry");
     }
 }
+
+macro_rules! quantizer_search_fixed {
+    ($name:ident, $Sym:ty, $lo:expr, $hi:expr, $unw:expr) => {
+        /// C03/C10/C20 (bounded: fixed support $lo..=$hi, step-shaped CDFs): quantile_function of a
+        /// quantised model for every step threshold, EVERY inverse hint and every quantile.
+        #[cfg_attr(kani, kani::proof)]
+        #[cfg_attr(kani, kani::unwind($unw))]
+        pub fn $name() {
+            let lo: $Sym = $lo; let hi: $Sym = $hi;
+            let t: i16 = any(); let hint: i16 = any();
+            let m = LeakyQuantizer::<f64, $Sym, u8, 8>::new(lo..=hi).quantize(StepCdf { t: t as f64, hint: hint as f64 });
+            let q: u8 = any();
+            let (s, c, p) = m.quantile_function(q);
+            assert!(s >= lo && s <= hi, "C10/C03: quantised model decoded a symbol outside its support");
+            assert!(c <= q && (q as u32) < c as u32 + p.get() as u32, "C03: quantile not inside the interval returned by the quantised model");
+            assert!(m.left_cumulative_and_probability(s) == Some((c, p)), "C03: quantised quantile_function disagrees with the encoder view");
+        }
+    };
+}
+quantizer_search_fixed!(quantizer_search_u8_full, u8, 0, 255, 40);
+quantizer_search_fixed!(quantizer_search_u8_top, u8, 100, 255, 40);
+quantizer_search_fixed!(quantizer_search_i8_full, i8, -128, 127, 40);
+quantizer_search_fixed!(quantizer_search_i8_mid, i8, -10, 20, 40);
+
+/// C19: float table constructors refuse NaN and negative entries whatever normalisation the caller
+/// supplies (3 symbolic f32 entries, symbolic Option<normalization>).
+#[cfg_attr(kani, kani::proof)]
+#[cfg_attr(kani, kani::unwind(6))]
+pub fn fast_f32_rejects_bad_entries() {
+    const P: usize = 8;
+    let p: [f32; 3] = [any(), any(), any()];
+    let norm: Option<f32> = if any::<bool>() { Some(any()) } else { None };
+    let bad = !(p[0] >= 0.0) || !(p[1] >= 0.0) || !(p[2] >= 0.0);
+    assume(bad);
+    assert!(ContiguousCategoricalEntropyModel::<u8, Vec<u8>, P>::from_floating_point_probabilities_fast(&p, norm).is_err(), "C19: float table with a NaN or negative entry accepted");
+    cover!(norm.is_some() && p[1].is_nan(), "NaN entry with a caller-supplied normalisation");
+}
+
+/// C19: non-contiguous float constructors (decoder and encoder variants) refuse a symbol count
+/// that differs from the number of probabilities instead of truncating silently.
+#[cfg_attr(kani, kani::proof)]
+#[cfg_attr(kani, kani::unwind(8))]
+pub fn non_contiguous_fast_counts() {
+    const P: usize = 8;
+    let probs: [f32; 3] = [1.0, 1.0, 2.0];
+    let syms: [u16; 4] = [10, 20, 30, 40];
+    let nsym: usize = any(); assume(nsym >= 1 && nsym <= 4);
+    let d = NonContiguousCategoricalDecoderModel::<u16, u8, Vec<(u8, u16)>, P>::from_symbols_and_floating_point_probabilities_fast(syms[..nsym].iter().copied(), &probs, None);
+    assert!(d.is_ok() == (nsym == 3), "C19: non-contiguous decoder model accepted a symbol count that differs from the number of probabilities");
+    if let Ok(d) = d {
+        let q: u8 = any();
+        let (_s, c, p) = d.quantile_function(q);
+        assert!(c <= q && (q as u32) < c as u32 + p.get() as u32 && (p.get() as u32) < 256, "C03: non-contiguous model entry is not a proper sub-interval");
+    }
+}
